@@ -34,3 +34,12 @@ Proof.
   intros [b p h f]; destruct b, p, h, f; cbn; split; intros H; try reflexivity; try (destruct H; discriminate); destruct H as [H|H]; discriminate.
 Qed.
 Print Assumptions C07_body_once.
+
+(* ---------- the synthesised parameter list ---------- *)
+From JT Require Import model.Sig proofs.SigFacts.
+
+(* Python reads the generated `def name(<pieces>)` back as the original signature: same names, kinds and
+   has-a-default flags in the same order, for every well-formed signature (all five kinds, any defaults) *)
+Theorem C07_signature_roundtrip : forall ps, wf_sig ps -> sig_of_pieces (pieces_of_sig ps) = Some ps.
+Proof. exact signature_roundtrip. Qed.
+Print Assumptions C07_signature_roundtrip.
